@@ -47,6 +47,7 @@ class Sys:
         self.rng = rng
         self.time = VTime(s)
         self.hooks: dict[str, Any] = {}
+        self.lock_serial = 0
 
     def me(self) -> int | None:
         return getattr(self.s.tl, "i", None)
@@ -79,6 +80,10 @@ class VTime:
         self.s = s
         self.now = 1000.0
         self.sleeping: set[int] = set()
+        # "sleepers": time passes only while every live thread sleeps (a grace period can only expire on a dead
+        # holder); "handover": time passes only when a holder releases the lock (each holder keeps it < grace,
+        # a waiter may wait much longer in total)
+        self.mode = "sleepers"
 
     def sleep(self, secs: float) -> None:
         t = getattr(self.s.tl, "i", None)
@@ -86,7 +91,7 @@ class VTime:
             return
         self.sleeping.add(t)
         # the clock moves only when every live thread is asleep (nobody could make progress instead)
-        if self.s.alive <= self.sleeping:
+        if self.mode == "sleepers" and self.s.alive <= self.sleeping:
             self.now += max(secs, 0.001)
         try:
             self.s.yield_(t, blocked=True)
@@ -111,6 +116,7 @@ class OsProxy:
         return getattr(_os, name)
 
     def _created(self, r: Any) -> Any:
+        self._sys.lock_serial += 1
         h = self._sys.hooks.get("lock_created")
         if h is not None:
             h(self._sys.me())
@@ -126,7 +132,22 @@ class OsProxy:
         return self._sys.event("os.close", lambda: _os.close(*a, **k))
 
     def stat(self, *a: Any, **k: Any) -> Any:
-        return self._sys.event("stat", lambda: _os.stat(*a, **k))
+        def do() -> Any:
+            r = _os.stat(*a, **k)
+            if a and str(a[0]).endswith(".lock"):
+                # real mtimes of lock files created microseconds apart can be equal (coarse kernel clock);
+                # give every lock file a distinct virtual mtime = serial number of its creation
+                class R:
+                    pass
+
+                o = R()
+                for f in ("st_mode", "st_size", "st_ino", "st_mtime_ns"):
+                    setattr(o, f, getattr(r, f))
+                o.st_mtime = float(self._sys.lock_serial)
+                return o
+            return r
+
+        return self._sys.event("stat", do)
 
     def rename(self, *a: Any, **k: Any) -> Any:
         def do() -> Any:
